@@ -1633,19 +1633,24 @@ impl Melda {
             .documents
             .read()
             .expect("failed_to_acquire_documents_for_reading");
+        // (an object without a winning revision is not part of the current state: there is
+        // nothing to delete)
         docs_r
             .par_iter()
-            .filter(|(uuid, _)| !extracted_objects.contains_key(*uuid))
-            .for_each(|(uuid, _)| {
-                self.delete_object(uuid).expect("unable_to_delete_object");
-            });
+            .filter(|(uuid, rt)| {
+                !extracted_objects.contains_key(*uuid)
+                    && rt
+                        .lock()
+                        .expect("failed_to_acquire_revision_tree_for_reading")
+                        .get_winner()
+                        .is_some()
+            })
+            .try_for_each(|(uuid, _)| self.delete_object(uuid).map(|_| ()))?;
         drop(docs_r);
         // Check for newly created and updated objects
-        extracted_objects.into_par_iter().for_each(|(uuid, obj)| {
-            //for (uuid, obj) in extracted_objects {
-            self.update_object(&uuid, obj)
-                .expect("unable_to_update_object");
-        });
+        extracted_objects
+            .into_par_iter()
+            .try_for_each(|(uuid, obj)| self.update_object(&uuid, obj).map(|_| ()))?;
         Ok(root.to_string())
     }
 
